@@ -10,4 +10,11 @@ Definition dispatch (cmd : string) (arg : sexp) : sexp :=
   else if String.eqb cmd "c13.translate" then Arith.run_translate arg
   else if String.eqb cmd "c13.ifexp" then Arith.run_ifexp arg
   else if String.eqb cmd "c13.aggregate" then Arith.run_aggregate arg
+  else if String.eqb cmd "c11.resub" then WordSubst.run_resub arg
+  else if String.eqb cmd "c11.subst" then WordSubst.run_subst arg
+  else if String.eqb cmd "c11.seq" then WordSubst.run_seq arg
+  else if String.eqb cmd "c11.spec" then WordSubst.run_spec arg
+  else if String.eqb cmd "c11.tokens" then WordSubst.run_tokens arg
+  else if String.eqb cmd "c11.call" then WordSubst.run_call arg
+  else if String.eqb cmd "c11.finder" then WordSubst.run_finder arg
   else s_tag "unknown-command" [SAtom cmd].
